@@ -31,7 +31,8 @@ EXHAUSTIVE = {
 }
 REACH = {
     t: ["ember_256", "ezsp_256", "unified_all", "undefined_ember", "undefined_ezsp",
-        "undefined_unified", "undefined_unified_8bit", "contract_path", "repeated_conversions_in_varied_order"]
+        "undefined_unified", "undefined_unified_8bit", "contract_path", "repeated_conversions_in_varied_order", "warnings_are_errors_shard",
+        "serial_protocol_family_converted_first", "families_interleaved_from_the_first_call"]
     for t in ("quick", "thorough")
 }
 
@@ -39,9 +40,13 @@ REACH = {
 def shards(tier, seed):
     # logging is code: the conversion logs unknown codes, so every logging mode gets the exhaustive part
     n32 = 10000 if tier == "quick" else 300000
-    return [{"seed": seed, "n32": n32, "debuglog": False},
-            {"seed": seed + 1, "n32": n32 // 10, "debuglog": True},
-            {"seed": seed + 2, "n32": n32 // 10, "debuglog": False, "loglevel": "warning"}]
+    # "order": which family a fresh process converts first (0 legacy stack codes, 1 serial-protocol codes, 2 both and
+    # the unified ones in random order from the very first call); "werror": Python warnings are errors
+    return [{"seed": seed, "n32": n32, "debuglog": False, "order": 0},
+            {"seed": seed + 1, "n32": n32 // 10, "debuglog": True, "order": 1},
+            {"seed": seed + 2, "n32": n32 // 10, "debuglog": False, "loglevel": "warning", "order": 2},
+            {"seed": seed + 3, "n32": n32 // 10, "debuglog": False, "loglevel": "warning", "order": 1, "werror": True},
+            {"seed": seed + 4, "n32": n32 // 10, "debuglog": False, "order": 2, "werror": True}]
 
 
 def _one(acc, t, fam, status, case):
@@ -65,7 +70,25 @@ def run_shard(desc) -> Acc:
     import bellows.types as t
 
     acc = Acc()
-    for fam, cls in (("EmberStatus", t.EmberStatus), ("EzspStatus", t.EzspStatus)):
+    if desc.get("werror"):
+        # an interpreter run with -W error (test suites, strict deployments): a warning raised inside the conversion
+        # would become an exception of the conversion
+        import warnings
+
+        warnings.simplefilter("error")
+        acc.hit("warnings_are_errors_shard")
+    fam_first = [("EmberStatus", t.EmberStatus), ("EzspStatus", t.EzspStatus)]
+    if desc.get("order", 0) == 1:
+        fam_first.reverse()
+        acc.hit("serial_protocol_family_converted_first")
+    if desc.get("order", 0) == 2:
+        rnd0 = random.Random(desc["seed"] * 31 + 7)
+        pool = [(f, c, v) for f, c in fam_first for v in range(256)] * 2
+        rnd0.shuffle(pool)
+        for f, c, v in pool:
+            _one(acc, t, f, c(v), {"family": f, "value": v, "history": "fresh process, both families in random order"})
+        acc.hit("families_interleaved_from_the_first_call")
+    for fam, cls in fam_first:
         defined = {int(m) for m in cls.__members__.values()}
         for v in range(256):
             case = {"family": fam, "value": v}
